@@ -522,7 +522,7 @@ pub fn c10(ctx: &Ctx) -> Report {
             rep.count(&format!("clients_{}", nclients));
             rep.count(&format!("tables_{}", cases.len()));
             rep.count(if cap == 1 { "capacity_1" } else { "capacity_gt1" });
-            let out = compare(d, rep, &s);
+            let (out, model_out) = compare_full(d, rep, &s, Cmp::All);
             let solo = Session { cap: 10000, files, faults: vec![], ops: ops.clone() }.run_impl();
             let mk = |what: &str, extra: Vec<(&'static str, J)>| {
                 let mut v = vec![("what", J::s(what)), ("capacity", J::N(cap as i64)), ("ops", J::s(&ops_text(&ops))), ("images", J::s(&hexlist(&s.files)))];
@@ -554,7 +554,11 @@ pub fn c10(ctx: &Ctx) -> Report {
                     }
                 }
                 let reads: Vec<&str> = if f[1] == "." { vec![] } else { f[1].split('/').collect() };
-                let evs: Vec<&str> = if f[2] == "." { vec![] } else { f[2].split('/').collect() };
+                // the block accesses an operation NEEDS are those of the model (whose theorem says they are
+                // what the two-level search requires); the implementation's own event log is compared with
+                // them separately (correspondence)
+                let mf: Vec<&str> = model_out.get(k).map(|x| x.split('~').collect()).unwrap_or_default();
+                let evs: Vec<&str> = if mf.len() != 4 || mf[2] == "." { vec![] } else { mf[2].split('/').collect() };
                 let mut nmiss = 0;
                 for e in evs.iter() {
                     let p: Vec<&str> = e.split(':').collect();
@@ -564,9 +568,7 @@ pub fn c10(ctx: &Ctx) -> Report {
                     }
                     accesses.push((format!("{}:{}", p[0], p[1]), hit, k));
                 }
-                if !matches!(s.ops[k], Op::Open { .. }) && reads.len() != nmiss {
-                    rep.judge_fail(mk("the file is read for something else than cache misses (or a miss is not read exactly once)", vec![("op_index", J::N(k as i64)), ("reads", J::s(f[1])), ("events", J::s(f[2]))]));
-                }
+                let _ = (&reads, nmiss);
             }
             let mut u = ids.clone();
             u.sort();
@@ -619,9 +621,26 @@ pub fn c10(ctx: &Ctx) -> Report {
                     }
                 }
             }
-            for (j, (key, hit, k)) in accesses.iter().enumerate() {
-                if predicted.get(j).cloned() != Some(*hit) {
-                    rep.judge_fail(mk("hit/miss differs from a least-recently-used cache of this capacity", vec![("op_index", J::N(*k as i64)), ("block", J::s(key)), ("observed_hit", J::B(*hit))]));
+            // reads the implementation performed per op vs. misses an LRU cache of this capacity has on the
+            // specified access sequence
+            let mut want_reads: std::collections::BTreeMap<usize, usize> = Default::default();
+            for (j, (_key, _hit, k)) in accesses.iter().enumerate() {
+                if predicted.get(j).cloned() == Some(false) {
+                    *want_reads.entry(*k).or_insert(0) += 1;
+                }
+            }
+            for (k, o) in out.iter().enumerate() {
+                if matches!(s.ops[k], Op::Open { .. }) {
+                    continue;
+                }
+                let f: Vec<&str> = o.split('~').collect();
+                if f.len() != 4 {
+                    continue;
+                }
+                let got = if f[1] == "." { 0 } else { f[1].split('/').count() };
+                let want = want_reads.get(&k).cloned().unwrap_or(0);
+                if got != want {
+                    rep.judge_fail(mk("the file is read for a block that a least-recently-used cache of this capacity holds (or a needed block is not read)", vec![("op_index", J::N(k as i64)), ("op", J::s(&s.ops[k].text())), ("reads", J::s(f[1])), ("lru_misses_expected", J::N(want as i64))]));
                     break;
                 }
             }
@@ -742,7 +761,7 @@ pub fn c14(ctx: &Ctx) -> Report {
                 let s = Session { cap: 2, files: vec![c.img.clone()], faults: sched.clone(), ops: ops.clone() };
                 rep.case(&s.request(), true);
                 rep.count("fault_schedules");
-                let out = compare(d, rep, &s);
+                let out = compare_all(d, rep, &s);
                 let mk = |what: &str, extra: Vec<(&'static str, J)>| {
                     let mut v = vec![("what", J::s(what)), ("faults", J::s(&desc)), ("schedule", J::s(&faults_str(&sched))), ("cfg", J::s(&c.cfg.describe())), ("entries", J::s(&entries_str(&c.es))), ("image", J::s(&hex(&c.img)))];
                     v.extend(extra);
@@ -845,7 +864,7 @@ pub fn c18(ctx: &Ctx) -> Report {
             }
             let s = Session { cap: 4, files: vec![c.img.clone()], faults: vec![], ops };
             rep.count("structural_sessions");
-            compare(d, rep, &s);
+            compare_all(d, rep, &s);
         }
         let _ = t;
     });
